@@ -60,6 +60,22 @@ fn main() {
             let r = driver::run_property(p.as_ref(), tier, seed);
             std::process::exit(r.exit);
         }
+        "child" => {
+            if args.len() < 4 {
+                usage();
+            }
+            let Some(p) = props.iter().find(|p| p.id() == args[2]) else { std::process::exit(2) };
+            let bytes = tape::from_hex(&args[3]).unwrap_or_default();
+            let r = std::panic::catch_unwind(std::panic::AssertUnwindSafe(|| p.child(&bytes)));
+            match r {
+                Ok(code) => std::process::exit(code),
+                Err(_) => {
+                    println!("{}/panic-in-child
+panic inside the child process", args[2]);
+                    std::process::exit(3)
+                }
+            }
+        }
         "replay" => {
             if args.len() < 3 {
                 usage();
